@@ -27,7 +27,7 @@ CONSTANTS MaxLen,       \* generation: bound on the history length
           NEvents       \* trace mode: number of recorded events
 
 Plugins == {"python", "rust", "dotnet", "testdata"}
-Models  == {"A", "B"}
+Models  == {"A", "B", "C"}          \* C is a LIST of two model files (the committed model and an extension)
 Seeds   == {"0", "1", "r"}
 \* plugins that own a SET of files (glob-deleted before writing); the others own fixed paths
 SetOwners == {"dotnet", "testdata"}
@@ -46,7 +46,8 @@ dvars == <<svPlugin, svFs, svPhase, svModel, svValid, svHist>>
 \* the abstract image: model A yields files {f1, f2}, model B yields {f1, f3} with other content
 GenFiles(p, m) == IF p \in SetOwners
                   THEN (IF m = "A" THEN {[name |-> "f1", content |-> "A"], [name |-> "f2", content |-> "A"]}
-                                   ELSE {[name |-> "f1", content |-> "B"], [name |-> "f3", content |-> "B"]})
+                        ELSE IF m = "B" THEN {[name |-> "f1", content |-> "B"], [name |-> "f3", content |-> "B"]}
+                        ELSE {[name |-> "f1", content |-> "C"], [name |-> "f2", content |-> "C"], [name |-> "f4", content |-> "C"]})
                   ELSE {[name |-> "main", content |-> m]}
 
 DInit == /\ svPlugin \in Plugins /\ svFs = {} /\ svPhase = "idle" /\ svModel = "A" /\ svValid = TRUE /\ svHist = <<>>
